@@ -879,6 +879,20 @@ def family_shapes():
             "start": "W",
         },
     )
+    # S33 a dependent refinement over negative values (hash(-1) == hash(-2) in CPython: anything keyed by the hash of the
+    # sibling values confuses the two)
+    out.append(
+        {
+            "name": "S33:dependent-negative",
+            "abstract": [["A", None, "ABC"]],
+            "prods": [
+                ["L", "A", None, [["v", IR01]]],
+                ["D", "A", None, [["a", ["ann", "int", ["IntRange", -2, -1]]], ["b", ["ann", "int", ["Dep", "a", ["IntRangeFrom", 0]]]]]],
+                ["N", "A", None, [["x", ref("A")]]],
+            ],
+            "start": "A",
+        },
+    )
     # S16 union of two abstract types of different minimum depth
     out.append(
         {
@@ -948,7 +962,7 @@ def finite_family(tier: str):
     fa = finite_alphabet()
     out = list(family_one_abstract(fa, 1 if tier == "quick" else 2, "F1"))
     out += [s for s in family_shapes() if s["name"].split(":")[0] in
-            ("S1", "S2", "S3", "S4", "S5", "S6", "S7", "S8", "S9", "S10", "S12", "S13", "S14", "S15", "S16", "S17", "S18", "S19", "S20", "S22", "S23", "S24", "S26", "S27", "S28", "S29", "S30", "S31", "S32")]
+            ("S1", "S2", "S3", "S4", "S5", "S6", "S7", "S8", "S9", "S10", "S12", "S13", "S14", "S15", "S16", "S17", "S18", "S19", "S20", "S22", "S23", "S24", "S26", "S27", "S28", "S29", "S30", "S31", "S32", "S33")]
     out += list(family_two_abstract(finite_alphabet, "F2"))
     out += list(family_nested(finite_alphabet, "F3"))
     return out
